@@ -39,12 +39,28 @@ macro_rules! impl_policy {
 
                 // cannot ad an item bigger than entire cache
                 if cost > max_cost {
+                    #[cfg(transparencies_stretto_verif)]
+                    crate::verif::emit(|| crate::verif::Event::Add {
+                        key,
+                        cost,
+                        added: false,
+                        victims: None,
+                        path: "oversize",
+                    });
                     return (None, false);
                 }
 
                 // no need to go any further if the item is already in the cache
                 if inner.costs.update(&key, cost) {
                     // an update does not count as an addition, so return false.
+                    #[cfg(transparencies_stretto_verif)]
+                    crate::verif::emit(|| crate::verif::Event::Add {
+                        key,
+                        cost,
+                        added: false,
+                        victims: None,
+                        path: "present",
+                    });
                     return (None, false);
                 }
 
@@ -56,6 +72,14 @@ macro_rules! impl_policy {
                     // overflowing. Do that now and stop here.
                     inner.costs.increment(key, cost);
                     self.metrics.add(MetricType::CostAdd, key, cost as u64);
+                    #[cfg(transparencies_stretto_verif)]
+                    crate::verif::emit(|| crate::verif::Event::Add {
+                        key,
+                        cost,
+                        added: true,
+                        victims: None,
+                        path: "room",
+                    });
                     return (None, true);
                 }
 
@@ -90,9 +114,31 @@ macro_rules! impl_policy {
                         }
                     });
 
+                    #[cfg(transparencies_stretto_verif)]
+                    crate::verif::emit(|| crate::verif::Event::Round {
+                        incoming: key,
+                        inc_hits,
+                        room,
+                        sample: sample
+                            .iter()
+                            .map(|p| (p.key, p.cost, inner.admit.estimate(p.key)))
+                            .collect(),
+                        min_key,
+                        min_hits,
+                        rejected: inc_hits < min_hits,
+                    });
+
                     // If the incoming item isn't worth keeping in the policy, reject.
                     if inc_hits < min_hits {
                         self.metrics.add(MetricType::RejectSets, key, 1);
+                        #[cfg(transparencies_stretto_verif)]
+                        crate::verif::emit(|| crate::verif::Event::Add {
+                            key,
+                            cost,
+                            added: false,
+                            victims: Some(victims.iter().map(|p: &PolicyPair| (p.key, p.cost)).collect()),
+                            path: "rejected",
+                        });
                         return (Some(victims), false);
                     }
 
@@ -115,6 +161,14 @@ macro_rules! impl_policy {
 
                 inner.costs.increment(key, cost);
                 self.metrics.add(MetricType::CostAdd, key, cost as u64);
+                #[cfg(transparencies_stretto_verif)]
+                crate::verif::emit(|| crate::verif::Event::Add {
+                    key,
+                    cost,
+                    added: true,
+                    victims: Some(victims.iter().map(|p: &PolicyPair| (p.key, p.cost)).collect()),
+                    path: "evicted",
+                });
                 (Some(victims), true)
             }
 
@@ -168,6 +222,27 @@ macro_rules! impl_policy {
             pub fn update_max_cost(&self, mc: i64) {
                 let inner = self.inner.lock();
                 inner.costs.update_max_cost(mc)
+            }
+        }
+
+        #[cfg(transparencies_stretto_verif)]
+        impl<S: BuildHasher + Clone + 'static> $policy<S> {
+            /// (key costs sorted, used, max_cost, tinylfu w)
+            pub(crate) fn verif_costs(&self) -> (Vec<(u64, i64)>, i64, i64, usize) {
+                let inner = self.inner.lock();
+                let mut v: Vec<(u64, i64)> =
+                    inner.costs.key_costs.iter().map(|(k, c)| (*k, *c)).collect();
+                v.sort();
+                (v, inner.costs.used, inner.costs.get_max_cost(), inner.admit.w)
+            }
+
+            pub(crate) fn verif_estimate(&self, k: u64) -> i64 {
+                self.inner.lock().admit.estimate(k)
+            }
+
+            pub(crate) fn verif_bump(&self, k: u64, n: usize) {
+                let mut inner = self.inner.lock();
+                (0..n).for_each(|_| inner.admit.increment(k));
             }
         }
 
@@ -496,4 +571,30 @@ impl TinyLFU {
     pub fn contains(&self, kh: u64) -> bool {
         self.doorkeeper.contains(kh)
     }
+}
+
+#[cfg(transparencies_stretto_verif)]
+impl TinyLFU {
+    pub(crate) fn verif_w(&self) -> (usize, usize) {
+        (self.w, self.samples)
+    }
+    pub(crate) fn verif_sketch(&self) -> &CountMinSketch {
+        &self.ctr
+    }
+    pub(crate) fn verif_sketch_mut(&mut self) -> &mut CountMinSketch {
+        &mut self.ctr
+    }
+    pub(crate) fn verif_door(&self) -> &Bloom {
+        &self.doorkeeper
+    }
+}
+
+#[cfg(all(transparencies_stretto_verif, feature = "sync"))]
+pub(crate) mod sync_verif {
+    pub(crate) use super::sync::PolicyProcessor as PProc;
+}
+
+#[cfg(all(transparencies_stretto_verif, feature = "async"))]
+pub(crate) mod async_verif {
+    pub(crate) use super::r#async::PolicyProcessor as APProc;
 }
